@@ -276,6 +276,9 @@ def print_best_metric_found(
         return None
     if mode is None:
         mode = "min"
+    elif isinstance(mode, list):
+        # Results are shown for the first metric only (see below)
+        mode = mode[0]
     # only plot results of the best first metric for now in summary, plotting the optimal metrics for multiple
     # objectives would require to display the Pareto set.
     metric_name = metric_names[0]
